@@ -571,7 +571,7 @@ def _run_tlc_chunk(run, progs, maxraise, name, dev, coverage, workers, invariant
         cfg += "".join("INVARIANT %s\n" % i for i in INVARIANTS)
     cfg += "INVARIANT Emit\n"
     return run.tlc(mod, cfg, name=name, extra_files={mod + ".tla": text}, coverage=coverage, workers=workers, timeout=600,
-                   heap="3g")
+                   heap="3g", env={"JAVA_TOOL_OPTIONS": "-Xss64m"})
 
 
 CHUNK = 30
